@@ -9,7 +9,7 @@ def dump(per_line, lines):   # loops of addMemoryDump: hex bytes, padding, chara
     return FMTSCAN + [D + '0:%d' % (per_line + 1), D + '1:17', D + '2:%d' % (per_line + 1), D + '3:%d' % (lines + 1)]
 STATE = 'buffer state arbitrary within the invariant (fill position <= write limit <= 4095, terminated at the fill position): covers every history'
 VS = 'vsnprintf = contract model returning an arbitrary would-be length 0..INT_MAX'
-KF = ['-DKF_C14_1']
+KF = []   # KF-C14-1 and KF-C14-2 are fixed in /repo: nothing is excluded any more
 # loops whose bound is a symbolic length: the symbolic executor cannot stop them by itself, give them their true small bound
 SYMB = ['_ZNK12SimpleString16getPrintableSizeEv.0:4', '_ZNK12SimpleString9printableEv.0:4', 'out_is.0:226']
 FS = ['--max-field-sensitivity-array-size', '168']
@@ -46,11 +46,11 @@ SPEC = {
         'buffer group: vsnprintf is a contract model (stores only inside [str, str+size), terminates what it stores, returns an arbitrary non-negative would-be length; literal texts and the footer have their real length); the model itself asserts that the range it is handed lies inside the 4096-byte buffer',
         'buffer group: unbounded in history through the inductive invariant fill <= limit <= 4095 and buffer[fill] == 0; the base case (constructed object) is a separate obligation',
         'buffer group: the single-call obligations (step_add, step_limits) let the model store into the real 4096-byte array and read the byte at the fill position back; the multi-call obligations (dump, misuse, report) track the position of the last terminator in a ghost variable instead (a symbolic-index store into the 4096-byte array costs the solver ~20 s each)',
-        'open finding KF_C14_1 (setWriteLimit below the fill position; start of a report when text already lies beyond the lowered limit) is excluded by -DKF_C14_1 and demonstrated by finding_limit_below_fill_then_add / finding_report_after_misuse in h14.c',
+        'finding KF-C14-1, now FIXED in /repo (setWriteLimit below the fill position; start of a report when text already lies beyond the lowered limit) is excluded by -DKF_C14_1 and demonstrated by finding_limit_below_fill_then_add / finding_report_after_misuse in h14.c',
         'message groups: heap = fixed-capacity ZERO-FILLED blocks with requested-size red zones (zheap.h): reads/writes outside a block\'s requested size are reported, an unterminated intermediate string is not visible (C13 covers the string operations on uninitialised blocks); NULL-ness of operands is a constant per obligation; failure objects are function-local statics (their destructor is not run)',
         'message groups: vsnprintf renders %s %c %x %X faithfully and every decimal digit as #; the value of each decimal conversion is recorded and compared',
         'group msg: TestFailure::createDifferenceAtPosString (the "difference starts at position N at: <...>" line with its 20-character window and caret) is a RECORDING stub in the solver world: the obligations prove that it is called once with the shown actual text, the index of the first difference in the shown texts and the index of the first difference of the operands; the text it renders is compared with the reference only on the sampled inputs of the differential run against the real build (the renderer itself is proved for all shown texts / offsets / positions by harness_marker in group long, thorough tier only: 246 s at 0..2 bytes, 1511 s at 0..4 bytes and any 64-bit position)',
-        'open finding KF_C14_2 (operands whose shown forms coincide make the first-difference scans run past the terminators) is excluded by -DKF_C14_2 and demonstrated by finding_strcmp_equal_shown_forms / finding_check_equal_same_text in h14m.c',
+        'finding KF-C14-2, now FIXED in /repo (operands whose shown forms coincide make the first-difference scans run past the terminators) is excluded by -DKF_C14_2 and demonstrated by finding_strcmp_equal_shown_forms / finding_check_equal_same_text in h14m.c',
     ],
     'groups': [{
         'name': 'buf', 'wrapper': 'w14.cpp', 'harness': 'h14.c', 'config': {}, 'defines': KF,
@@ -64,12 +64,12 @@ SPEC = {
                 unwindset=dump(2, 1), timeout=900, solver='kissat', tier=('thorough' if k == 3 else 'both')) for k in range(4) for c in range(2)],
     }, {
         # short messages; the marker renderer is a recording stub in the solver world (see h14m.c)
-        'name': 'msg', 'wrapper': 'w14m.cpp', 'harness': 'h14m.c', 'defines': ['-DKF_C14_2', '-DMARKER_STUBBED'],
+        'name': 'msg', 'wrapper': 'w14m.cpp', 'harness': 'h14m.c', 'defines': ['-DMARKER_STUBBED'],
         'config': {'stubs': ['_ZN11TestFailure27createDifferenceAtPosStringERK12SimpleStringmm']},
         'obligations': msg_obligations(1, 'quick') + msg_obligations(2, 'thorough'),
     }, {
         # long messages: 168-byte heap objects
-        'name': 'long', 'wrapper': 'w14m.cpp', 'harness': 'h14m.c', 'defines': ['-DKF_C14_2', '-DENV_MALLOC_CAP=168'], 'config': {},
+        'name': 'long', 'wrapper': 'w14m.cpp', 'harness': 'h14m.c', 'defines': ['-DENV_MALLOC_CAP=168'], 'config': {},
         'obligations':
             [ob('harness_marker', unwind=120, unwindset=SYMB, timeout=1800, tier='thorough', defines=['-DMARKMAX=2', '-DMARKPOSMAX=9'], bounds='shown text any 0..2 bytes, offset 0..length, reported position 0..9; createDifferenceAtPosString')] +
             [ob('harness_marker', unwind=170, unwindset=SYMB, timeout=7200, tier='thorough', solver='kissat', bounds='shown text any 0..4 bytes, offset 0..length, reported position any 64-bit value; createDifferenceAtPosString')] +
